@@ -131,7 +131,9 @@ func c05(e *Env) {
 	cl := f.clients[0]
 	checked := 0
 	for op := 0; op < p.OpsPerClient && !w.Stopped(); op++ {
-		// world settles: every node that is up has its pool connections
+		// world settles: every node that is up has its pool connections - or, in half of the
+		// cases, at least one of them (a pool that is still replacing a lost connection is usable)
+		f.settleAny = c.Choose("settle-any", 2) == 1
 		if !f.settle(5 * time.Minute) {
 			e.Res.Stats["c05.unsettled"]++
 			break
@@ -179,6 +181,9 @@ func c05(e *Env) {
 				}
 			}
 		}
+	}
+	if !w.Stopped() && !f.clientsStillOpen("c05-connection") {
+		return
 	}
 	e.Res.Sample = f.sample()
 	e.Res.Shape = fmt.Sprintf("h%d c%d", p.Hosts, p.NumConns)
@@ -231,7 +236,7 @@ func (f *fwd) settle(max time.Duration) bool {
 					pooled++
 				}
 			}
-			if pooled < f.p.NumConns {
+			if pooled < f.p.NumConns && !(f.settleAny && pooled >= 1) {
 				return false
 			}
 		}
